@@ -378,7 +378,7 @@ class Engine:
 
     def variant_index(self, enum_name, variant):
         if enum_name in STD_DISCR:
-            return STD_DISCR[enum_name][variant]
+            return STD_DISCR[enum_name].get(variant)        # e.g. atomic::Ordering::Release is not cmp::Ordering
         vs = self.enum_variants(enum_name)
         if vs is None or variant not in vs:
             return None
